@@ -466,4 +466,5 @@ func c19(p *model.Prog, r *report.Result) {
 	if !found {
 		r.Bad("C19.R5", fkey(gamma, "scaling-list", "floor"), p.Pos(gamma.Pos()), "the 16/64 scaling-list size selection was not found")
 	}
+	c19r67(p, r)
 }
